@@ -206,8 +206,12 @@ def add_sweep(ctx, res, prop):
     else:
         # the C10 statement names arithmetic operators, construction, unary ops, elementary and special functions;
         # calculus / linear-algebra / utility entry points ("entry-point" scope) are recorded, not reported
-        in_scope = [f for f in rec["c10"] if f["input"].get("scope", "statement") == "statement"]
-        out_scope = [f for f in rec["c10"] if f["input"].get("scope", "statement") != "statement"]
+        # ... and it is about the mp context's working precision (anchors: libmpf, libmpc, ctx_mp*, functions): iv results
+        # are recorded, not reported
+        def _in(f):
+            return f["input"].get("scope", "statement") == "statement" and f["input"]["task"].get("ctx") == "mp"
+        in_scope = [f for f in rec["c10"] if _in(f)]
+        out_scope = [f for f in rec["c10"] if not _in(f)]
         res["failing_inputs"].extend(_one_per_site(in_scope))
         cov["sweep_bitlength_excess_outside_statement_scope"] = _count_sites(out_scope)
         cov["sweep_noncanonical_seen (reported by C01)"] = len(rec["c01"])
